@@ -528,6 +528,9 @@ def _filter(interp, f, it):
 @bi("iter")
 @wants_interp
 def _iter(interp, it):
+    s_ = _loops().siter(it)
+    if s_ is not None:
+        return _loops().SList(s_[0], s_[1])
     return X.GenV(list(interp.iterate(it)))
 
 
@@ -753,6 +756,8 @@ def np_meshgrid(*xi, indexing="xy", sparse=False, copy=True):
 @reg("numpy.stack")
 @wants_interp
 def np_stack(interp, arrays, axis=0, **kw):
+    if isinstance(arrays, X.Obj) and isinstance(arrays.cls, X.RepoClass) and arrays.cls.lookup(interp, "__iter__"):
+        arrays = interp.call_repo(arrays.cls.lookup(interp, "__iter__"), [arrays], {})
     if type(arrays).__name__ == "SList" and not isinstance(arrays.n, int):
         if axis != 0:
             raise Unsupported("stack of a symbolic-length list along axis != 0")
@@ -841,7 +846,10 @@ def _shift_axes(a, axes, inverse):
             else:
                 src[ax] = V.arith("%", V.arith("-", idx[ax], h), n)
         return f(tuple(src))
-    return SArr(shape, fn, a.dtype)
+    out = SArr(shape, fn, a.dtype)
+    if getattr(a, "im", None) is not None:
+        out.im = _shift_axes(a.im, axes, inverse)
+    return out
 
 
 REG["numpy.fft.fftshift"] = lambda a, axes=None: _shift_axes(a, axes, False)
@@ -1050,7 +1058,9 @@ def np_mean(a, axis=None, **kw):
         n = 1
         for x in ax:
             n = V.arith("*", n, a.shape[x % a.ndim])
-    return s / n if isinstance(s, SArr) else V.arith("/", s, n)
+    res = s / n if isinstance(s, SArr) else V.arith("/", s, n)
+    GHOST.setdefault("mean", []).append((res, a, axis, s, n))     # ghost: result = (sum of `a` over `axis`) / n
+    return res
 
 
 REG["numpy.mean"] = np_mean
@@ -1291,9 +1301,12 @@ def _arr_method(arr, name):
     if name == "real":
         return a
     if name == "imag":
+        if getattr(a, "im", None) is not None:
+            return a.im
         if a.dtype != "complex":
             return A.full(a.shape, 0, "real")
-        return _uf_array("imag", a.shape, "real")
+        a.im = _uf_array("imag", a.shape, "real")      # one imaginary part per array object
+        return a.im
     if name == "astype":
         return lambda dtype, **kw: A.astype(a, _dt(dtype))
     if name == "copy":
@@ -1303,7 +1316,14 @@ def _arr_method(arr, name):
     if name == "mean":
         return lambda axis=None, **kw: np_mean(a, axis)
     if name == "max":
-        return lambda axis=None, **kw: _reduce_concrete(a, "max", axis)
+        def _amax(axis=None, **kw):
+            try:
+                return _reduce_concrete(a, "max", axis)
+            except Unsupported:
+                if axis is None:
+                    return _max_symbolic(a)
+                raise
+        return _amax
     if name == "min":
         return lambda axis=None, **kw: _reduce_concrete(a, "min", axis)
     if name in ("all", "any"):
@@ -1322,7 +1342,14 @@ def _arr_method(arr, name):
     if name == "ravel" or name == "flatten":
         return lambda: np_reshape(a, (a.size,))
     if name == "tolist":
-        return lambda: a.to_list()
+        def _tolist():
+            if a.ndim == 1 and is_sym(a.shape[0]):
+                f = a.snapshot()
+                return _loops().SList(a.shape[0], lambda i: f((i,)))
+            return a.to_list()
+        return _tolist
+    if name == "rechunk":
+        return lambda *args, **kw: a          # dask: chunking does not change values (trusted; this is C09/C10's clause)
     if name == "item":
         return lambda: a.at((0,) * a.ndim)
     if name == "conj":
@@ -1385,6 +1412,19 @@ def _getattr_hook(interp, obj, name):
     if isinstance(obj, SArr):
         return _arr_method(obj, name)
     if isinstance(obj, MaskedSel):
+        if name == "rechunk":
+            return lambda *a, **k: obj
+        if name == "mean":
+            def _mmean(axis=None, **kw):
+                # mean over the rows selected by a 1-d boolean mask on axis 0: an uninterpreted array; the selection
+                # (source array, mask) is recorded as ghost state
+                src = A.from_nested(obj.arr)
+                if axis != 0 or obj.mask.ndim != 1:
+                    raise Unsupported("masked mean other than rows-by-mask over axis 0")
+                res = _uf_array("masked_mean", src.shape[1:], "real")
+                GHOST.setdefault("masked_mean", []).append((res, src, obj.mask))
+                return res
+            return _mmean
         return NotImplemented
     if is_num(obj):
         if name == "real":
@@ -1547,7 +1587,12 @@ REG["abc.ABC"] = TypeTag("ABC", lambda x: False)
 def _uf_array(prefix, shape, kind="real"):
     la = V.loop_args()
     f = z3.Function(V.fresh_name(prefix), *([I] * (len(la) + len(shape))), R)
-    return SArr(tuple(shape), lambda idx: Sym(f(*(la + [V.lift(i) for i in idx]))), kind)
+    arr = SArr(tuple(shape), lambda idx: Sym(f(*(la + [V.lift(i) for i in idx]))), kind)
+    if kind == "complex":
+        # a complex array is its real part (the array itself) plus a companion imaginary part
+        g = z3.Function(V.fresh_name(prefix + "_im"), *([I] * (len(la) + len(shape))), R)
+        arr.im = SArr(tuple(shape), lambda idx: Sym(g(*(la + [V.lift(i) for i in idx]))), "real")
+    return arr
 
 
 def _fft_shape(x, s):
@@ -1842,3 +1887,64 @@ for _nm, _k in (("binary_erosion", "bool"), ("binary_dilation", "bool"), ("binar
     REG["scipy.ndimage." + _nm] = _ndi_recorded(_nm, _k)
 REG["acryo._typed_scipy.shift"] = REG["scipy.ndimage.shift"]
 REG["acryo._typed_scipy.zoom"] = REG["scipy.ndimage.zoom"]
+
+
+# numpy.random.Generator: only range and determinism are modelled -------------------------------------------------
+class RngV:
+    _pyvc_native = True
+
+    def __init__(self, seed):
+        self.seed = seed
+        self.draws = 0
+
+    def choice(self, a, size=None, replace=True, **kw):
+        """`size` draws from a (1-d array or int): values of `a` at uninterpreted positions in range; the positions are a
+        function of (seed, number of earlier draws): the same seed reproduces the same draws"""
+        arr = A.from_nested(a) if not is_num(a) else None
+        n = arr.shape[0] if arr is not None else a
+        self.draws += 1
+        seed_t = V.lift(self.seed) if self.seed is not None else z3.IntVal(-1)
+        f = z3.Function(f"rng_choice_{self.draws}", z3.IntSort(), z3.IntSort(), z3.IntSort(), z3.IntSort())
+        p = V.PATH[0]
+
+        def pos(t):
+            r = Sym(f(seed_t, V.lift(n), V.lift(t)))
+            return r
+        if p is not None:
+            qt = z3.Int(V.fresh_name("draw"))
+            p.conds.append(z3.ForAll([qt], z3.And(f(seed_t, V.lift(n), qt) >= 0, f(seed_t, V.lift(n), qt) < V.lift(n))))
+        if size is None:
+            return arr.at((pos(0),)) if arr is not None else pos(0)
+        size = X._unfrac(size)
+        af = arr.snapshot() if arr is not None else None
+        return SArr((size,), lambda idx: af((pos(idx[0]),)) if af is not None else pos(idx[0]), "int")
+
+
+REG["numpy.random.default_rng"] = lambda seed=None: RngV(seed)
+REG["numpy.random.Generator"] = RngV
+
+
+def _sum_labels(input, labels=None, index=None):
+    """scipy.ndimage.sum_labels: out[t] = sum of input over the bins whose label equals index[t] (trusted); the result is
+    uninterpreted and (input, labels, index) are recorded as ghost state"""
+    idx = A.from_nested(index)
+    res = _uf_array("sum_labels", idx.shape, "real")
+    GHOST.setdefault("sum_labels", []).append((res, A.from_nested(input), A.from_nested(labels), idx))
+    return res
+
+
+REG["scipy.ndimage.sum_labels"] = _sum_labels
+REG["acryo._typed_scipy.sum_labels"] = _sum_labels
+
+
+def _max_symbolic(a):
+    """max over a symbolic extent: a fresh value that bounds every element (attainment is not used)"""
+    kind = "int" if a.dtype == "int" else "real"
+    m = V.fresh("arrmax", kind)
+    p = V.PATH[0]
+    if p is not None:
+        qs = [z3.Int(V.fresh_name("mx")) for _ in a.shape]
+        rng = z3.And(*[z3.And(q >= 0, q < V.lift(s_)) for q, s_ in zip(qs, a.shape)])
+        el = a.at(tuple(Sym(q) for q in qs))
+        p.conds.append(z3.ForAll(qs, z3.Implies(rng, V.lift(el) <= m.t)))
+    return m
